@@ -348,28 +348,20 @@ func (s *NestedConjunctionSearcher) Advance(ctx *search.SearchContext, ID index.
 	if err != nil {
 		return nil, err
 	}
-	// we now follow the the following logic for each searcher:
-	// let S be the length of the ancestry chain for the searcher
-	// let I be the length of the ancestry chain for the given ID
-	// 1. if S > I:
-	//    then we just Advance() the searcher to the given ID if required
-	// 2. else if S <= I:
-	//    then we get the AncestorID at position (S - 1) from the root of
-	//    the given ID's ancestry chain, and Advance() the searcher to
-	//    it if required
+	// a match is decided per ancestor at the join level: all documents of a
+	// searcher below that ancestor take part in it, including those with ids
+	// smaller than the given ID (and those on other paths than the one the
+	// given ID is on).  So every searcher is advanced to the join level
+	// ancestor of the given ID (or to the ID itself when it lies above the
+	// join level), and the matches before the given ID are skipped below.
+	pos := s.joinIdx
+	if pos > len(s.ancestors)-1 {
+		pos = len(s.ancestors) - 1
+	}
+	targetID := s.toAdvanceID(ancestorFromRoot(s.ancestors, pos))
 	for i, searcher := range s.searchers {
 		if s.currs[i] == nil {
 			return nil, nil // already exhausted, nothing to do
-		}
-		var targetID index.IndexInternalID
-		S := len(s.currAncestors[i])
-		I := len(s.ancestors)
-		if S > I {
-			// case 1: S > I
-			targetID = ID
-		} else {
-			// case 2: S <= I
-			targetID = s.toAdvanceID(ancestorFromRoot(s.ancestors, S-1))
 		}
 		if s.currs[i].IndexInternalID.Compare(targetID) < 0 {
 			// need to advance this searcher
